@@ -38,20 +38,30 @@ def chain_cases(rng, v, nstruct, per_struct, ex):
                 continue
             rows = sref[1]
             i = rng.randrange(len(rows))
+            # half of the chains go down to a subcomponent when the segment has a field with a complex component (depth 4 is where
+            # seed C11-b wrote on a read; by chance alone few chains get there)
+            deep = [k for k, r_ in enumerate(rows) if gen.well_formed_ref(r_[1]) and len(r_[1]) == 6 and r_[1][0] == 'sequence' and gen.is_seq(r_[1][1]) and
+                    any(gen.is_seq(c_) and len(c_) == 4 and gen.well_formed_ref(c_[1]) and len(c_[1]) == 6 and c_[1][0] == 'sequence' and c_[1][1] for c_ in r_[1][1])]
+            want_deep = bool(deep) and rng.random() < .5
+            if want_deep:
+                i = rng.choice(deep)
             F, fref = rows[i][0], rows[i][1]
             if not (gen.well_formed_ref(fref) and len(fref) == 6) or fref[2] == 'varies':
                 continue
             comp = sub = None
             seps = ''
             dt = fref[2]
-            if fref[0] == 'sequence' and gen.is_seq(fref[1]) and fref[1] and rng.random() < .8:
+            if fref[0] == 'sequence' and gen.is_seq(fref[1]) and fref[1] and (want_deep or rng.random() < .8):
                 j = rng.randrange(len(fref[1]))
+                if want_deep:
+                    j = rng.choice([k for k, c_ in enumerate(fref[1]) if gen.is_seq(c_) and len(c_) == 4 and gen.well_formed_ref(c_[1]) and len(c_[1]) == 6
+                                    and c_[1][0] == 'sequence' and c_[1][1]])
                 crow = fref[1][j]
                 cref = crow[1]
                 if not (gen.well_formed_ref(cref) and len(cref) == 6) or cref[2] == 'varies':
                     continue
                 comp, dt, seps = crow[0], cref[2], '^' * j
-                if cref[0] == 'sequence' and gen.is_seq(cref[1]) and cref[1] and rng.random() < .8:
+                if cref[0] == 'sequence' and gen.is_seq(cref[1]) and cref[1] and (want_deep or rng.random() < .8):
                     k = rng.randrange(len(cref[1]))
                     srow = cref[1][k]
                     if not (gen.well_formed_ref(srow[1]) and len(srow[1]) == 6) or srow[1][0] != 'leaf':
